@@ -152,8 +152,23 @@ class Model:
 
         h = hashlib.sha256()
         for n in self.nodes.values():
-            h.update(repr((n.label, n.kind, n.parent, sorted((k, repr(v)) for k, v in n.a.items()))).encode())
+            h.update(repr((n.label, n.kind, n.parent, _canon(n.a))).encode())
         return h.hexdigest()[:16]
+
+
+def _canon(v):
+    """Canonical, hash-seed independent rendering of model values."""
+    if isinstance(v, dict):
+        # "raw" (bytes gtirb wrote for a table) is excluded: the element order of sets / mappings
+        # on the wire follows Python hashing (str hashing, object addresses) and is unspecified
+        return [[_canon(k), _canon(x)] for k, x in sorted(v.items(), key=lambda kv: repr(_canon(kv[0]))) if k != "raw"]
+    if isinstance(v, (set, frozenset)):
+        return sorted((_canon(x) for x in v), key=repr)
+    if isinstance(v, (list, tuple)):
+        return [_canon(x) for x in v]
+    if isinstance(v, (bytes, bytearray)):
+        return bytes(v).hex()
+    return v
 
 
 class World:
